@@ -292,6 +292,32 @@ def post_translate_table(snap, result, self, table, external_vocabulary, edge_ne
       'an undefined table is read as data: one data-dependency edge to the predicate being built'
 
 
+# ------------------------------------------------------------------ Functors.MakeAll / CallFunctor order
+_MAKE = {}
+
+
+def pre_make_all(self, predicate_to_instruction):
+  pending = set()
+  for p, i in predicate_to_instruction:
+    pending.add(self.ParseMakeInstruction(p, i)[0])
+  _MAKE[id(self)] = pending
+  return None
+
+
+def pre_call_functor(self, name, applicant, args_map):
+  pending = _MAKE.get(id(self))
+  if pending is None:
+    return None
+  blocked = (({applicant} | set(self.args_of.get(applicant, ())) | set(args_map.values())) & pending) - {name}
+  assert_msg = ('a predicate is made only after its applicant, everything the applicant depends on and all bound '
+                'values have been made (%s still pending when making %s)' % (sorted(blocked), name))
+  if blocked:
+    from vlib.monitor import MonitorViolation
+    raise MonitorViolation('compiler.functors:Functors.CallFunctor', assert_msg.split(' (')[0], assert_msg)
+  pending.discard(name)
+  return None
+
+
 MONITORS = [
   Monitor(UN + ':LogicaProgram.SingleRuleSql', ['C01'], ['(recorded for PredicateSql)']),
   Monitor('compiler.expr_translate:QL.ConvertToSql', ['C01'], ['(recorded for AsSql)']),
@@ -324,6 +350,10 @@ MONITORS = [
            'disambiguated names are unique across the compilation'], pre_disambiguate, post_disambiguate),
   Monitor(RT + ':ExtractRuleStructure', ['C02', 'C19'],
           ['aggregation implies distinct', 'distinct_vars = sorted(select keys - aggregated)'], None, post_extract),
+  Monitor('compiler.functors:Functors.MakeAll', ['C04'], ['(records the pending @Make targets)'], pre_make_all, None),
+  Monitor('compiler.functors:Functors.CallFunctor', ['C04', 'C03'],
+          ['a predicate is made only after its applicant, the applicant\'s transitive arguments and all bound values'],
+          pre_call_functor, None),
   Monitor(UN + ':SubqueryTranslator.TranslateTable', ['C08', 'C14'],
           ['alias / ground / WITH / inline / data dispatch'], pre_translate_table, post_translate_table),
 ]
